@@ -157,6 +157,8 @@ func collectAccesses(p *pkgInfo, fn string, body ast.Node, regions []lockRegion,
 				e = x.X
 			case *ast.StarExpr:
 				e = x.X
+			case *ast.SliceExpr:
+				e = x.X
 			default:
 				return
 			}
@@ -175,6 +177,13 @@ func collectAccesses(p *pkgInfo, fn string, body ast.Node, regions []lockRegion,
 		case *ast.UnaryExpr:
 			if s.Op == token.AND {
 				mark(s.X, "AAddr")
+			}
+		case *ast.SliceExpr:
+			// slicing an array yields a slice that aliases the array's storage: as good as taking its address
+			if t := p.info.TypeOf(s.X); t != nil {
+				if _, isArr := t.Underlying().(*types.Array); isArr {
+					mark(s.X, "AAddr")
+				}
 			}
 		case *ast.CallExpr:
 			if sel, ok := s.Fun.(*ast.SelectorExpr); ok {
@@ -202,6 +211,18 @@ func collectAccesses(p *pkgInfo, fn string, body ast.Node, regions []lockRegion,
 			}
 			if id, ok := s.Fun.(*ast.Ident); ok && id.Name == "delete" && len(s.Args) > 0 {
 				mark(s.Args[0], "AWrite")
+			}
+			// copy(dst, ...) writes the elements of dst; append(v[i:j], ...) writes into the backing array of v
+			if id, ok := s.Fun.(*ast.Ident); ok && len(s.Args) > 0 {
+				if _, builtin := p.info.Uses[id].(*types.Builtin); builtin {
+					if sl, isSlice := s.Args[0].(*ast.SliceExpr); id.Name == "copy" || (id.Name == "append" && isSlice) {
+						if isSlice {
+							mark(sl.X, "AWrite")
+						} else {
+							mark(s.Args[0], "AWrite")
+						}
+					}
+				}
 			}
 		}
 		return true
